@@ -19,7 +19,7 @@ ASSUMPTIONS = ["threads are their body functions under a cooperative scheduler; 
                "threading.Lock -> cooperative lock; Queue -> cooperative FIFO; select -> cooperative wait that reports the socket writable while the buffer is non-empty, the interrupt pipe after demand_attention and a timeout otherwise",
                "send() accepts 1..n bytes or fails once with a soft errno, as scripted by solver-chosen values"]
 BOUNDS = {"quick": "1 producer x 2 messages and 2 producers x 1 message (plus one unencodable message: encoder raises / 16 MiB message), first send accepts a symbolic 1..n bytes or fails softly, every placement of <= 2 preemptions with symbolic target thread",
-          "thorough": "3 messages, <= 3 preemptions"}
+          "thorough": "3 messages; 1 preemption with every first-send size 1..48; every placement of 2 preemptions with the first send accepting everything or 21 bytes"}
 OUTSIDE = ["4..6 messages", "3 producers", "several independent partial writes", "bytecode-level preemption", "hard socket errors (C14)"]
 
 REG = {}
@@ -133,6 +133,7 @@ def fifo(k1: int, sched: List[int], tgt: List[int]) -> bool:
     """
     pre: -3 <= k1 <= 48 and (P["ks"] is None or k1 in P["ks"]) and len(sched) == P["slots"] and len(tgt) == P["slots"]
     pre: all(0 <= s < P["maxstep"] for s in sched) and all(sched[i] < sched[i + 1] for i in range(len(sched) - 1)) and all(0 <= x <= 2 for x in tgt)
+    pre: len(sched) == 0 or P.get("lo", 0) <= sched[0] < P.get("hi", P["maxstep"])
     post: _
     """
     return fifo_body(k1, sched, tgt)
@@ -144,86 +145,91 @@ def fifo_body(k1, sched, tgt):
     hx.begin()
     inputs = (k1, sched, tgt)
     kv = hx.concretize_range(k1, -3, 49)
+    # byte count and schedule are the only inputs: fix them (solver-decided bisection branches), the threads then run natively
+    sched = [hx.concretize_range(x, 0, P["maxstep"]) for x in sched]
+    tgt = [hx.concretize_range(x, 0, 3) for x in tgt]
     try:
-        b = B.Bench(n_peers=1)
-        n = b.node
-        c = PeerConnection("10.0.1.1", 1, B.PEER_RECV, interrupt_fileno=n.interrupt_write)
-        c.state = B.PEER_READY
-        c.write_lock = coop.CoopLock()
-        q = coop.CoopQueue()
-        c._write_msg_queue = q
-        put_order = []
-        real_put = q.put
+        # all inputs are fixed above: the rest of the path runs natively
+        with hx.untraced():
+            b = B.Bench(n_peers=1)
+            n = b.node
+            c = PeerConnection("10.0.1.1", 1, B.PEER_RECV, interrupt_fileno=n.interrupt_write)
+            c.state = B.PEER_READY
+            c.write_lock = coop.CoopLock()
+            q = coop.CoopQueue()
+            c._write_msg_queue = q
+            put_order = []
+            real_put = q.put
 
-        def put(x):
-            put_order.append(x)
-            real_put(x)
-        q.put = put
-        s = SendSock([kv])
-        n._add_peer_connection(c, s, B.PEER_TRANSPORT_TCP)
-        others = []
-        c2 = s2 = None
-        second = b""
-        if P.get("second"):
-            # a second connection with bytes already buffered; its first send fails softly in the same select round
-            c2 = PeerConnection("10.0.1.2", 2, B.PEER_RECV, interrupt_fileno=n.interrupt_write)
-            c2.state = B.PEER_READY
-            c2.write_lock = coop.CoopLock()
-            s2 = SendSock([-1])
-            s2._fn = 78
-            n._add_peer_connection(c2, s2, B.PEER_TRANSPORT_TCP)
-            second = _msgs(["avp", "plain"])[0].as_bytes() + _msgs(["plain"])[0].as_bytes()
-            c2._write_buffer = second
-            others.append((c2, s2))
-        WORLD.pipe.clear()
-        vs = VSelect(c, s, others)
-        HC.__globals__["select"] = vs
-        th_io = TH()
+            def put(x):
+                put_order.append(x)
+                real_put(x)
+            q.put = put
+            s = SendSock([kv])
+            n._add_peer_connection(c, s, B.PEER_TRANSPORT_TCP)
+            others = []
+            c2 = s2 = None
+            second = b""
+            if P.get("second"):
+                # a second connection with bytes already buffered; its first send fails softly in the same select round
+                c2 = PeerConnection("10.0.1.2", 2, B.PEER_RECV, interrupt_fileno=n.interrupt_write)
+                c2.state = B.PEER_READY
+                c2.write_lock = coop.CoopLock()
+                s2 = SendSock([-1])
+                s2._fn = 78
+                n._add_peer_connection(c2, s2, B.PEER_TRANSPORT_TCP)
+                second = _msgs(["avp", "plain"])[0].as_bytes() + _msgs(["plain"])[0].as_bytes()
+                c2._write_buffer = second
+                others.append((c2, s2))
+            WORLD.pipe.clear()
+            vs = VSelect(c, s, others)
+            HC.__globals__["select"] = vs
+            th_io = TH()
 
-        class W(TH):
-            @property
-            def is_stopped(self_):
-                return q.closed and q.empty()
-        th_w = W()
-        groups = P["producers"]           # list of lists of message kinds, one list per producer
-        msgs = [_msgs(g) for g in groups]
-        for gi, g in enumerate(msgs):
-            for m in g:
-                m.header.end_to_end_identifier = gi
-        done = [False] * len(groups)
+            class W(TH):
+                @property
+                def is_stopped(self_):
+                    return q.closed and q.empty()
+            th_w = W()
+            groups = P["producers"]           # list of lists of message kinds, one list per producer
+            msgs = [_msgs(g) for g in groups]
+            for gi, g in enumerate(msgs):
+                for m in g:
+                    m.header.end_to_end_identifier = gi
+            done = [False] * len(groups)
 
-        def producer(gi):
-            for m in msgs[gi]:
+            def producer(gi):
+                for m in msgs[gi]:
+                    yield 0
+                    c.add_out_msg(m)
                 yield 0
-                c.add_out_msg(m)
-            yield 0
-            done[gi] = True
-            if all(done):
-                q.closed = True
+                done[gi] = True
+                if all(done):
+                    q.closed = True
 
-        def writer():
-            try:
-                yield from WQ(c, th_w)
-            finally:
-                vs.finish = True
+            def writer():
+                try:
+                    yield from WQ(c, th_w)
+                finally:
+                    vs.finish = True
 
-        def io():
-            try:
-                yield from HC(n, th_io)
-            except EndLoop:
-                return
-        used = [False] * len(sched)
+            def io():
+                try:
+                    yield from HC(n, th_io)
+                except EndLoop:
+                    return
+            used = [False] * len(sched)
 
-        def choose(step, nrunnable):
-            for i in range(len(sched)):
-                if not used[i] and sched[i] == step:
-                    used[i] = True
-                    return 1 + hx.concretize_range(tgt[i], 0, 3)
-            return 0
-        threads = [producer(gi) for gi in range(len(groups))] + [writer(), io()]
-        coop.run_choices(threads, choose, len(sched), max_steps=1500)
-        expected = b"".join(m.as_bytes() for m in put_order if not isinstance(m, BadMessage) and not any(len(a.payload) >= (1 << 24) - 32 for a in m.avps))
-        obs = (_compact(s.log), len(c.write_buffer), c.state, s2.log if s2 is not None else b"")
+            def choose(step, nrunnable):
+                for i in range(len(sched)):
+                    if not used[i] and sched[i] == step:
+                        used[i] = True
+                        return 1 + tgt[i]
+                return 0
+            threads = [producer(gi) for gi in range(len(groups))] + [writer(), io()]
+            coop.run_choices(threads, choose, len(sched), max_steps=1500)
+            expected = b"".join(m.as_bytes() for m in put_order if not isinstance(m, BadMessage) and not any(len(a.payload) >= (1 << 24) - 32 for a in m.avps))
+            obs = (_compact(s.log), len(c.write_buffer), c.state, s2.log if s2 is not None else b"")
     except Exception as e:
         return hx.fail(inputs, "raised %s: %s" % (type(e).__name__, str(e)[:100]))
     return hx.check(inputs, obs, (_compact(expected), 0, B.PEER_READY, second), "bytes handed to the transport != FIFO concatenation of the encodable queued messages, each once (per connection)")
@@ -240,7 +246,11 @@ def specs(tier, seed, carve):
                     bound="as 1x2, plus a second connection with buffered bytes that is writable in the same select rounds and whose first send fails softly; 1 preemption"))
     for name, groups in scen.items():
         for slots in ((1,) if q else (1, 2)):
-            out.append(dict(id="fifo/%s/p%d" % (name, slots), fn="fifo", params={"producers": groups, "slots": slots, "maxstep": 90, "ks": ([-1, -3, 0, 1, 20, 21] if slots == 1 else [-1, 0, 1, 21]) if (q or slots > 1) else None}, timeout=1500 if q else 8000,
-                            bound="producers %r; first send accepts k bytes (%s) or fails with EAGAIN/EINTR/ENOBUFS; every placement of %d preemption(s) over the shared-state statements with symbolic target thread" % (
-                                groups, "k in {1, 20, 21, all}" if (q or slots > 1) else "every k in 1..48 / all", slots)))
+            ks = [-1, -3, 0, 1, 20, 21] if (q and slots == 1) else (None if slots == 1 else [0, 21])
+            shards = [(0, 90)] if slots == 1 else [(0, 12), (12, 26), (26, 45), (45, 90)]
+            for (lo, hi) in shards:
+                out.append(dict(id="fifo/%s/p%d%s" % (name, slots, "" if slots == 1 else "/%d" % lo), fn="fifo",
+                                params={"producers": groups, "slots": slots, "maxstep": 90, "ks": ks, "lo": lo, "hi": hi}, timeout=1500 if q else 8000,
+                                bound="producers %r; first send accepts k bytes (%s) or fails with EAGAIN/EINTR/ENOBUFS; every placement of %d preemption(s) over the shared-state statements (first one in steps %d..%d) with symbolic target thread" % (
+                                    groups, "k in {1, 20, 21, all}" if ks and len(ks) > 2 else ("k in {all, 21}" if ks else "every k in 1..48 / all"), slots, lo, hi - 1)))
     return out
